@@ -228,6 +228,7 @@ rule(T, 'next', "Some('@')", ['post', 'assert'], ['C14'])
 rule(P, '*', '*', VAL, ['C03', 'C15'])
 # ---- C15, first clause as a theorem over the two specifications (unit i64number-agree)
 rule('i64number-agree', '*', '*', ['post', 'assert', 'precond', 'decreases', 'invariant'], ['C15'])
+rule('f64number-agree', '*', '*', ['post', 'assert', 'precond', 'decreases', 'invariant'], ['C15'])
 
 # superscript exponents: the ten superscript digits, the maximal run, the digits handed to the conversion (C13: 2¹⁰ = 2^10)
 for c in '⁰¹²³⁴⁵⁶⁷⁸⁹':
